@@ -20,7 +20,7 @@ from common import wire, show_str, show_opt
 
 THEOREMS = ['Pylx.Split.C18_partition', 'Pylx.Split.C18_part_position', 'Pylx.Split.C18_node_position', 'Pylx.Split.C18_opaque_position',
             'Pylx.Split.C18_total', 'Pylx.Split.C18_fixed_terminates', 'Pylx.Split.C18_keep_empty', 'Pylx.Split.C18_max_split',
-            'Pylx.Split.C18_split_node', 'Pylx.Split.C18_keyval',
+            'Pylx.Split.C18_split_node', 'Pylx.Split.C18_asis_split_node_one_short', 'Pylx.Split.C18_keyval',
             'Pylx.Split.C18_asIs_eq_fixed', 'Pylx.Split.C18_asIs_keep_empty_false', 'Pylx.Split.C18_asIs_negative_start',
             'Pylx.Split.C18_asIs_empty_match', 'Pylx.Split.C18_asIs_keyval_first_equals', 'Pylx.Split.C18_asIs_policy_first']
 RULE = ('SPLIT/KEYVAL: all concatenations of up to k atoms over {sep, letter, group containing seps, macro with argument containing seps, '
@@ -427,8 +427,10 @@ def _impl_node(c):
     if fail is None and i != len(inp):
         fail = {'kind': 'split-node-partition', 'detail': '%d trailing nodes lost' % (len(inp) - i)}
     nspl = len(parts) - 1
-    if fail is None and c['ms'] is not None and nspl > c['ms']:
-        fail = {'kind': 'split-node-max-split', 'detail': '%d splits with max_split=%d' % (nspl, c['ms'])}
+    total0 = sum(1 for n in inp if pred(n))
+    if fail is None and c['ms'] is not None and nspl != min(c['ms'], total0):
+        fail = {'kind': 'split-node-max-split', 'detail': '%d splits with max_split=%d and %d separator nodes (expected %d: at most max_split, the remainder unsplit in the last part)'
+                % (nspl, c['ms'], total0, min(c['ms'], total0))}
     if fail is None and c['ms'] is None:
         for j, p in enumerate(parts):
             for t, n in enumerate(p.nodelist):
